@@ -326,7 +326,7 @@ fn prior_life<K: Kit>(rig: &mut Rig<K>, sc: &Scenario, seq: &[u8], same_space: b
         space.pos.set(0);
         space.calls.set(0);
         space.overdrawn.set(0);
-        space.expire_when_exhausted.set(sc.params.bias >= 1.0);
+        space.expire_when_exhausted.set(sc.params.bias >= 1.0 || sc.goal_fail_at.is_some() || sc.goal_fail_from.is_some());
         space.log.borrow_mut().clear();
         space.call_seqs.borrow_mut().clear();
     }
